@@ -78,7 +78,7 @@ def build(stream, p):
     if stream == "find_user":
         k, table = p["k"], p["table"]
         call = enc_call(38, k, table)
-        impl = lambda: guard(lambda: dsw.find_vertices(observed_length=k, bio_filter=gen.table_filter(k, table)),
+        impl = lambda: guard(lambda: gen.api("find_vertices", observed_length=k, bio_filter=gen.table_filter(k, table)),
                              lambda r: [[int(x) for x in r]])
         want = table
         filt = lambda s: bool(table[sum(NUC.index(c) * 4 ** (k - 1 - i) for i, c in enumerate(s))])
@@ -106,7 +106,7 @@ def build(stream, p):
                     dsw.find_vertices(observed_length=k, bio_filter=gen.make_filter(p["first"]))
                 except ValueError:
                     pass
-            return dsw.find_vertices(observed_length=k, bio_filter=gen.make_filter(cfg))
+            return gen.api("find_vertices", observed_length=k, bio_filter=gen.make_filter(cfg))
         impl = lambda: guard(run_local, lambda r: [[int(x) for x in r]])
         f = None
         try:
@@ -142,7 +142,7 @@ def build(stream, p):
     def run_twice():
         # the caller owns the returned accessor (the library's own remove_nasty_arc edits accessors in place): overwrite it,
         # then build the graph again from an equal mask
-        first = dsw.connect_valid_graph(observed_length=k, vertices=arr)
+        first = gen.api("connect_valid_graph", observed_length=k, vertices=arr)
         if isinstance(first, np.ndarray) and first.flags.writeable and first.size:
             first[...] = -1
         return dsw.connect_valid_graph(observed_length=k, vertices=np.array(mask, dtype=arr.dtype))
